@@ -8,6 +8,11 @@ import sys
 
 root, rnd = sys.argv[1], int(sys.argv[2])
 EMPHASIS = {
+ 7: '''IMPORTANT for this round (six earlier rounds already used the central functions, fallback and tear-down paths, unusual API sequences, module interactions, shared helpers, wrapping counters, second-use effects, conversions, batches, return values, and scale/range thresholds): aim for one of
+ (a) TWO COOPERATING SITES: a change at two places (or one change whose effect depends on an unchanged second place) where each looks correct in isolation - e.g. a flag set in one function and tested in another, a lock scope moved while another path relies on it, an initialiser and the code reading the field, a producer and a consumer that disagree by one state;
+ (b) the less used public entry points and options of the modules this property involves (look through src/include/*.h and the man pages in man3/ for functions, flags and modes the tests never call) when they are combined with the ordinary ones;
+ (c) behaviour in the window between two steps of one operation (after the kernel call but before the book-keeping, after the unlock but before the wake-up, between a handler returning and the loop re-examining the object) when something else happens exactly there: a callback re-entering the API, another thread's call, a signal, a child exiting.
+Do it quickly: you have about 20 minutes in total; prefer a deterministic single-threaded demonstration where the property allows it.''',
  3: '''IMPORTANT for this round (two earlier rounds already used the central functions of each mechanism and the obvious secondary paths such as plain tear-down and fallback code): aim for one of
  (a) a valid-but-unusual API sequence: re-initialising and re-registering the same object, registering or unregistering one kind of object from inside a handler of a different kind, doing the same operation a second/third time, zero/boundary values, flags combined in uncommon ways;
  (b) behaviour that depends on what the kernel returns at one specific call: an error code, a short count, EAGAIN/EINTR at exactly the k-th call, a descriptor number being reused by the kernel, spurious readiness;
